@@ -340,6 +340,12 @@ func (w *World) build(i int, in Inst) *Built {
 		case "1h":
 			rb.WithMaxDuration(time.Hour)
 		}
+		if in.DelayFunc {
+			rb.WithDelayFunc(func(e failsafe.ExecutionAttempt[int]) time.Duration {
+				rec.add(rec.Attempt(i, "delay.fn", e))
+				return -1 // no opinion: the configured (zero) delay applies
+			})
+		}
 		if on("OnSuccess") {
 			rb.OnSuccess(att("OnSuccess"))
 		}
